@@ -75,3 +75,333 @@ def results_through_funnel(ck, rule):
             okn += 1
         if not failed:
             ck.ok(rule, w, "all %d returning paths store the kernel/repr result once, through set_val or the constructor, with matching raw flag and n_frac" % okn)
+
+
+# =========================================================================== kernels and sizing
+
+from ..scaletype import Typer, Mismatch, Unknown
+from ..paths import subst
+from ..terms import equiv
+
+
+class _Rewrite(ast.NodeTransformer):
+    """canonical spellings used by the typer: kwargs['k'] if 'k' in kwargs else None -> kwargs['k'];
+    np.cumsum(np.ones_like(..), axis=A)[.astype(int)] -> cumcount(A)"""
+
+    def visit_IfExp(self, n):
+        self.generic_visit(n)
+        t = n.test
+        if isinstance(t, ast.Compare) and len(t.ops) == 1 and isinstance(t.ops[0], ast.In) and isinstance(t.left, ast.Constant) \
+                and isinstance(n.body, ast.Subscript) and isinstance(n.body.slice, ast.Constant) and n.body.slice.value == t.left.value \
+                and dotted(n.body.value) == dotted(t.comparators[0]) and isinstance(n.orelse, ast.Constant) and n.orelse.value is None:
+            return n.body
+        return n
+
+    def visit_Call(self, n):
+        self.generic_visit(n)
+        if isinstance(n.func, ast.Attribute) and n.func.attr == "astype" and isinstance(n.func.value, ast.Call) and dotted(n.func.value.func) == "cumcount":
+            return n.func.value
+        if dotted(n.func) == "np.cumsum" and n.args and isinstance(n.args[0], ast.Call) and dotted(n.args[0].func) in ("np.ones_like", "np.ones"):
+            ax = kw(n, "axis", 1)
+            return ast.Call(func=ast.Name(id="cumcount", ctx=ast.Load()), args=[ax if ax is not None else ast.Constant(value=None)], keywords=[])
+        return n
+
+
+def public_functions(prog):
+    """top-level functions of functions.py that call one of the two wrappers: [(Func, wrapper Func, call node)]"""
+    w1, w2 = A.wrappers(prog)
+    out = []
+    for q, f in prog.funcs.items():
+        if f.module != "functions" or f.parent is not None or f in (w1, w2):
+            continue
+        for c in calls_in(f.node):
+            r = prog.resolve_call(f, c)
+            if r in (w1.qualname, w2.qualname) and not any(n is c for g in f.nested.values() for n in ast.walk(g.node)):
+                out.append((f, prog.funcs[r], c))
+    return out
+
+
+def kernel_candidates(prog, f, call):
+    """nested defs that can be bound to raw_func at this wrapper call (incl. `_k = _k_complex` rebinding)"""
+    rf = kw(call, "raw_func", 1)
+    names = set()
+    if isinstance(rf, ast.Name):
+        names.add(rf.id)
+        for n in ast.walk(f.node):
+            if isinstance(n, ast.Assign) and any(isinstance(t, ast.Name) and t.id == rf.id for t in n.targets) and isinstance(n.value, ast.Name):
+                names.add(n.value.id)
+    return [f.nested[n] for n in sorted(names) if n in f.nested]
+
+
+def operand_alias(f, wrapper, call):
+    """{outer name -> kernel operand name}: wrapper called with x=a means the kernel's x is the outer a"""
+    al = {}
+    for p in ("x", "y"):
+        v = kw(call, p)
+        if isinstance(v, ast.Name) and v.id != p:
+            al[v.id] = p
+    return al
+
+
+def kernel_typing(ck, rule, only=None, note_events=None):
+    """C07.R3 / C08.R1 / C09.R1 / C15.R2: every raw kernel returns Code<n_frac> for its own (free) n_frac."""
+    prog = ck.prog
+    n_k = 0
+    results = {}
+    for f, w, call in public_functions(prog):
+        if only is not None and f.name not in only:
+            continue
+        al = operand_alias(f, w, call)
+        for k in kernel_candidates(prog, f, call):
+            params = k.params
+            if "n_frac" not in params:
+                ck.note("kernel %s takes no n_frac (re-arrangement only)" % k.qualname)
+                continue
+            ops = [p for p in params[:params.index("n_frac")]]
+            n_k += 1
+
+            def ren(d, al=al):
+                head = d.split(".")[0]
+                if head in al:
+                    return al[head] + d[len(head):]
+                return d
+            pfs = fpaths(prog, k)
+            ck.saw(k, paths=len(pfs))
+            for pf in pfs:
+                if pf.end == "raise":
+                    continue
+                if pf.ret is None:
+                    ck.bad(rule, k, "the kernel returns the raw result", "kernel path without return value", k.node)
+                    continue
+                ret = _Rewrite().visit(ast.fix_missing_locations(_copy(pf.ret)))
+                events = []
+                ty = Typer(ops + list(al.keys()), rename=ren, events=events)
+                try:
+                    t = ty.ty(ret)
+                except Mismatch as m:
+                    ck.bad(rule, k, "operands are aligned to a common binary point before they are combined", "%s: %s" % (m.what, src(m.node)[:100] if m.node is not None else ""), pf.ret_stmt,
+                           m.detail)
+                    continue
+                except (Unknown, NotATerm) as u:
+                    ck.unsure(rule, k, "kernel body is in the scale-typing vocabulary", pf.ret_stmt, str(u))
+                    continue
+                want = Term.var("n_frac")
+                ck.saw(terms=1)
+                if t.kind != "code":
+                    ck.bad(rule, k, "the kernel returns an integer code", "returns %r" % t, pf.ret_stmt)
+                    continue
+                same, cex = equiv(t.t, want)
+                if not same:
+                    ck.bad(rule, k, "the kernel result is scaled by 2^n_frac, the fraction length its sink stores it with",
+                           "result scaled by 2^(%s), sink expects 2^(n_frac)" % t.t.show(), pf.ret_stmt,
+                           {"meaning": "the stored value is wrong by the factor 2^(%s)" % (t.t - want).show(), "witness": witness(t.t, want)})
+                    continue
+                results[k.qualname] = (t, events, ret, pf)
+                ck.ok(rule, k, "%s : Code<n_frac> (operands %s)" % (k.name, ", ".join(sorted(t.ops))), pf.ret_stmt)
+    ck.extra["kernels_typed"] = len(results)
+    if only is None and n_k < 18:
+        raise AnalysisError("only %d raw kernels found (expected >= 18)" % n_k)
+    return results
+
+
+def _copy(e):
+    import copy
+    return copy.deepcopy(e)
+
+
+def single_quantization(ck, rule, results, only=None):
+    """C08.R2: between the exact integer computation and the sink there is no rounding / integer cast of the
+    re-scaled result, and quotients are formed by integer floor division."""
+    for q, (t, events, ret, pf) in sorted(results.items()):
+        f = ck.prog.funcs[q]
+        if only is not None and f.parent.name not in only:
+            continue
+        badev = [e for e in events if e[0] in ("intcast", "round")]
+        # cumprod's int_array over the list of conversion factors is a Pow2 list, not a code: events only record casts of codes
+        ck.check(not badev, rule, f, "the kernel result reaches the sink without an intermediate rounding or integer cast",
+                 "%s applied inside the kernel: %s" % (badev[0][0], src(badev[0][1])[:90]) if badev else "", pf.ret_stmt,
+                 "a truncation before the sink's own rounding makes floor/ceil/around results wrong (double quantization)")
+
+
+def _nocoerce_path(prog, f, call):
+    """PathFacts of f reaching `call` on which no operand was coerced with Fxp(x)"""
+    for pf in fpaths(prog, f):
+        if pf.end != "return":
+            continue
+        if not any(ce.raw is call for ce in pf.calls):
+            continue
+        coerced = False
+        for g in pf.guards:
+            t = g[2]
+            if isinstance(t, ast.UnaryOp) and isinstance(t.op, ast.Not) and isinstance(t.operand, ast.Call) and dotted(t.operand.func) == "isinstance" and g[1]:
+                coerced = True
+        if not coerced:
+            return pf
+    return None
+
+
+def wellformed(prefixes):
+    """substitution x.n_int -> x.n_word - x.n_frac - [x.signed] for the given operand names (C02.R3 for operands)"""
+    m = {}
+    for p in prefixes:
+        m[("v", p + ".n_int")] = Term.var(p + ".n_word") - Term.var(p + ".n_frac") - Term.bvar(p + ".signed")
+    return m
+
+
+def optimal_sizes(ck, prog, f, call, alias=None):
+    """(signed, n_word_eff, n_int, n_frac) Terms of the optimal size packed at this wrapper call, or None"""
+    pf = _nocoerce_path(prog, f, call)
+    if pf is None:
+        return None
+    ce = [c for c in pf.calls if c.raw is call][0]
+    os_ = kw(ce.call, "optimal_size")
+    if os_ is None or (isinstance(os_, ast.Constant) and os_.value is None):
+        return None
+    if not isinstance(os_, ast.Tuple) or len(os_.elts) != 4:
+        return "unrecognised"
+    al = alias or {}
+
+    def ren(d):
+        head = d.split(".")[0]
+        if head in al:
+            return al[head] + d[len(head):]
+        return d
+    tb = TermBuilder(rename=ren)
+    try:
+        sg = tb.boolean(os_.elts[0])
+        nw = tb.term(os_.elts[1])
+        ni = tb.term(os_.elts[2])
+        nf = tb.term(os_.elts[3])
+    except NotATerm as e:
+        return "unrecognised: %s" % e
+    return sg, nw, ni, nf, pf
+
+
+from ..terms import TermBuilder
+
+
+def sizing_record(ck, rule):
+    """C07.R2: _get_sizing('optimal') hands the packed (signed, n_int, n_frac) through unchanged and the wrappers pass each
+    under the keyword of its own role."""
+    prog = ck.prog
+    sz = A.sizing(prog)
+    pfs = fpaths(prog, sz)
+    ck.saw(sz, paths=len(pfs))
+    okp = 0
+    for pf in pfs:
+        if pf.end != "return" or pf.ret is None:
+            continue
+        gopt = [g for g in pf.guards if g[2] is not None and isinstance(g[2], ast.Compare) and dotted(g[2].left) == "sizing" and const_str(g[2].comparators[0]) == "optimal" and g[1]]
+        gnn = [g for g in pf.guards if g[2] is not None and isinstance(g[2], ast.Compare) and dotted(g[2].left) == "optimal_size" and isinstance(g[2].ops[0], ast.IsNot) and g[1]]
+        if not gopt or not gnn:
+            continue
+        r = pf.ret
+        if not (isinstance(r, ast.Tuple) and len(r.elts) == 4):
+            ck.bad(rule, sz, "_get_sizing returns (signed, n_word, n_int, n_frac)", "returns %s" % src(r)[:80], pf.ret_stmt)
+            continue
+
+        def elem(e):
+            e = peel(e)[0]
+            if isinstance(e, ast.Subscript) and dotted(e.value) == "optimal_size" and isinstance(e.slice, ast.Constant):
+                return e.slice.value
+            return None
+        got = (elem(r.elts[0]), elem(r.elts[2]), elem(r.elts[3]))
+        ck.check(got == (0, 2, 3), rule, sz, "under sizing='optimal' the result's signed / n_int / n_frac are the caller's optimal_size entries 0 / 2 / 3",
+                 "returns optimal_size entries %s for (signed, n_int, n_frac)" % (got,), pf.ret_stmt,
+                 "exchanged tuple entries give the result a wrong format")
+        # n_word consistent: int(signed) + n_int + n_frac
+        try:
+            tb = TermBuilder()
+            if isinstance(r.elts[1], ast.Constant) and r.elts[1].value is None:
+                raise NotATerm("n_word None (sizes left to inference)")
+            nw = tb.term(r.elts[1])
+            o = tb.term(ast.Call(func=ast.Name(id="int", ctx=ast.Load()), args=[r.elts[0]], keywords=[])) + tb.term(r.elts[2]) + tb.term(r.elts[3])
+            ck.check(nw == o, rule, sz, "n_word returned by _get_sizing equals [signed] + n_int + n_frac", "n_word = %s" % nw.show(), pf.ret_stmt)
+        except NotATerm:
+            pass
+        okp += 1
+    if okp == 0:
+        ck.bad(rule, sz, "_get_sizing honours the caller's optimal_size under sizing='optimal'", "no path returns the optimal_size entries", sz.node,
+               "the documented growth rules would be ignored")
+    # wrappers: unpack and keyword roles
+    for w in A.wrappers(prog):
+        for pf in fpaths(prog, w):
+            if pf.end != "return" or pf.ret is None:
+                continue
+            r = peel(pf.ret)[0]
+            if isinstance(r, ast.Call) and prog.is_fxp_ctor(w, r):
+                noout = [g for g in pf.guards if g[2] is not None and src(g[2]) in ("out is not None", "out_like is not None") and g[1]]
+                if noout:
+                    continue
+
+                def from_sizing(e, idx):
+                    e = peel(e)[0] if e is not None else None
+                    return isinstance(e, ast.Subscript) and isinstance(e.value, ast.Call) and prog.resolve_call(w, e.value) == sz.qualname \
+                        and isinstance(e.slice, ast.Constant) and e.slice.value == idx
+                good = from_sizing(kw(r, "signed"), 0) and from_sizing(kw(r, "n_int"), 2) and from_sizing(kw(r, "n_frac"), 3) and kw(r, "n_word") is None
+                ck.check(good, rule, w, "the wrapper builds the result with signed/n_int/n_frac taken from _get_sizing entries 0/2/3",
+                         "constructor keywords signed=%s n_int=%s n_frac=%s" % tuple(src(kw(r, k))[:40] if kw(r, k) is not None else None for k in ("signed", "n_int", "n_frac")), pf.ret_stmt,
+                         "sizes would be passed under the wrong role")
+                break
+
+
+GROWTH = {}
+
+
+def growth_rules(ck, rule, names=("add", "sub", "mul")):
+    """C07.R1: the optimal size terms equal the documented growth rules (equality, modulo operand well-formedness)."""
+    prog = ck.prog
+    xs, ys = Term.bvar("x.signed"), Term.bvar("y.signed")
+    xw, yw, xf, yf = (Term.var(n) for n in ("x.n_word", "y.n_word", "x.n_frac", "y.n_frac"))
+    wf = wellformed(["x", "y"])
+    xi, yi = wf[("v", "x.n_int")], wf[("v", "y.n_int")]
+    sg_o = t_or(xs, ys)
+    oracle = {
+        "add": (sg_o, tmax(xi, yi) + 1, tmax(xf, yf)),
+        "sub": (sg_o, tmax(xi, yi) + 1, tmax(xf, yf)),
+        "mul": (sg_o, xw + yw - sg_o - (xf + yf), xf + yf),
+    }
+    for f, w, call in public_functions(prog):
+        if f.name not in names:
+            continue
+        r = optimal_sizes(ck, prog, f, call)
+        if r is None or isinstance(r, str):
+            ck.bad(rule, f, "%s packs an optimal size for its result" % f.name, "optimal_size %s" % r, call, "without it the result takes the first operand's size and can overflow")
+            continue
+        sg, nw, ni, nf, pf = r
+        osg, oni, onf = oracle[f.name]
+        ni2, nf2 = ni.subst(wf), nf.subst(wf)
+        ck.saw(f, terms=3)
+        same, _ = equiv(sg, osg)
+        ck.check(same, rule, f, "%s: result is signed iff an operand is signed" % f.name, "signed = %s" % sg.show(), call, "a signed operand stored in an unsigned result loses its sign")
+        same, cex = equiv(nf2, onf)
+        ck.check(same, rule, f, "%s: result n_frac = %s" % (f.name, onf.show()), "n_frac = %s" % nf2.show(), call,
+                 {"witness": witness(nf2, onf), "meaning": "fraction bits are lost or the result is mis-sized"})
+        same, cex = equiv(ni2, oni)
+        ck.check(same, rule, f, "%s: result n_int = %s" % (f.name, "max(x.n_int, y.n_int) + 1" if f.name != "mul" else "x.n_word + y.n_word - [signed] - n_frac"),
+                 "n_int = %s (booleans %s)" % (ni2.show(), cex), call, {"witness": witness(ni2.subst({}), oni), "meaning": "the exact result does not fit: overflow with extreme operands"})
+        GROWTH[f.name] = (sg, ni2, nf2)
+
+
+def alignment_exponents_nonneg(ck, rule, results, names, nfrac_of):
+    """C07.R5 / C09.R4: under optimal sizing every alignment exponent (2**k factor applied to a code) is >= 0."""
+    prog = ck.prog
+    for q, (t, events, ret, pf) in sorted(results.items()):
+        k = prog.funcs[q]
+        fn = k.parent.name
+        if fn not in names or fn not in nfrac_of:
+            continue
+        nf = nfrac_of[fn]
+        shifts = []
+        ty = Typer([p for p in k.params if p in ("x", "y")], events=[])
+        for n in ast.walk(ret):
+            p = ty.pow2(n) if isinstance(n, (ast.BinOp, ast.Call)) else None
+            if p is not None:
+                shifts.append((p, n))
+        for p, n in shifts:
+            e = p.subst({("v", "n_frac"): nf})
+            good = nonneg(e, Facts(nonneg_syms=("x.n_int_plus", )))
+            ck.saw(terms=1)
+            ck.check(good, rule, k, "with optimal sizing the alignment exponent of %s is non-negative (integer arithmetic, no rounding)" % fn,
+                     "exponent %s = %s under optimal n_frac" % (p.show(), e.show()), n,
+                     "a negative exponent multiplies codes by a fraction: the kernel rounds")
